@@ -113,13 +113,13 @@ impl<A> NFA<A> {
     }
 
     pub fn add_char_transition(&mut self, state: StateIdx, char: char, next: StateIdx) {
-        let not_exists = self.states[state.0]
+        // Note: the transition may already exist, e.g. for a character set that repeats a
+        // character: `['a' 'a']`
+        self.states[state.0]
             .char_transitions
             .entry(char)
             .or_default()
             .insert(next);
-
-        assert!(not_exists, "add_char_transition");
     }
 
     pub fn add_range_transition(
